@@ -20,13 +20,6 @@ const sigSCSuffix = "spend-commitment-suffix-doubled"
 
 func init() { register("c04", runC04) }
 
-func short(s string) string {
-	if len(s) > 160 {
-		return s[:160] + "…"
-	}
-	return s
-}
-
 // hasSCSuffix reports whether some spend/veto input carries a non-empty commitment suffix
 func hasSCSuffix(t *types.TxData) bool {
 	for _, in := range t.Inputs {
@@ -81,60 +74,60 @@ func allTyped(t *types.TxData) bool {
 func oracleTx(c *Ctx, v *types.TxData) (text []byte) {
 	defer func() {
 		if r := recover(); r != nil {
-			c.Fail("tx-roundtrip-panic", short(fmt.Sprint(r)))
+			failLimited(c, "tx-roundtrip-panic", short(fmt.Sprint(r)))
 		}
 	}()
 	b, err := v.MarshalText()
 	if err != nil {
-		c.Fail("tx-marshal-error", short(err.Error()))
+		failLimited(c, "tx-marshal-error", short(err.Error()))
 		return nil
 	}
 	text = b
 	size := uint64(len(b) / 2)
 	var back types.TxData
 	if err := back.UnmarshalText(b); err != nil {
-		c.Fail("tx-decode-of-own-encoding-fails", short(err.Error()+" "+string(b)))
+		failLimited(c, "tx-decode-of-own-encoding-fails", short(err.Error()+" "+string(b)))
 		return
 	}
 	want, got := dTxSized(v, size), dTx(&back)
 	if want != got {
 		if hasSCSuffix(v) && dumpDoubled(v, size) == got {
-			c.Fail(sigSCSuffix, short("encoded "+want+" decoded "+got))
+			failLimited(c, sigSCSuffix, short("encoded "+want+" decoded "+got))
 			return // the re-encoding differs for the same reason
 		}
-		c.Fail("tx-roundtrip-differs", short("want "+want+" got "+got))
+		failLimited(c, "tx-roundtrip-differs", short("want "+want+" got "+got))
 		return
 	}
 	if back.SerializedSize != size {
-		c.Fail("tx-serialized-size", fmt.Sprintf("recorded %d encoded %d", back.SerializedSize, size))
+		failLimited(c, "tx-serialized-size", fmt.Sprintf("recorded %d encoded %d", back.SerializedSize, size))
 	}
 	re, err := back.MarshalText()
 	if err != nil || !bytes.Equal(re, b) {
-		c.Fail("tx-reencoding-differs", short(string(b)+" -> "+string(re)))
+		failLimited(c, "tx-reencoding-differs", short(string(b)+" -> "+string(re)))
 	}
 	if allTyped(v) {
 		id1 := types.NewTx(*v).ID
 		var tx types.Tx
 		if err := tx.UnmarshalText(b); err != nil {
-			c.Fail("tx-decode-of-own-encoding-fails", short(err.Error()))
+			failLimited(c, "tx-decode-of-own-encoding-fails", short(err.Error()))
 			return
 		}
 		if id1 != tx.ID {
-			c.Fail("tx-id-changes", short(id1.String()+" -> "+tx.ID.String()+" "+string(b)))
+			failLimited(c, "tx-id-changes", short(id1.String()+" -> "+tx.ID.String()+" "+string(b)))
 		}
 		// JSON form (a quoted hex string): storage / RPC
 		js, err := json.Marshal(&types.Tx{TxData: *v})
 		if err != nil {
-			c.Fail("tx-json-marshal", short(err.Error()))
+			failLimited(c, "tx-json-marshal", short(err.Error()))
 			return
 		}
 		var jtx types.Tx
 		if err := json.Unmarshal(js, &jtx); err != nil {
-			c.Fail("tx-json-unmarshal", short(err.Error()))
+			failLimited(c, "tx-json-unmarshal", short(err.Error()))
 			return
 		}
 		if dTx(&jtx.TxData) != want || jtx.ID != id1 {
-			c.Fail("tx-json-roundtrip-differs", short(want))
+			failLimited(c, "tx-json-roundtrip-differs", short(want))
 		}
 	}
 	return
@@ -143,38 +136,38 @@ func oracleTx(c *Ctx, v *types.TxData) (text []byte) {
 func oracleHeader(c *Ctx, h *types.BlockHeader) (text []byte) {
 	defer func() {
 		if r := recover(); r != nil {
-			c.Fail("hdr-roundtrip-panic", short(fmt.Sprint(r)))
+			failLimited(c, "hdr-roundtrip-panic", short(fmt.Sprint(r)))
 		}
 	}()
 	b, err := h.MarshalText()
 	if err != nil {
-		c.Fail("hdr-marshal-error", short(err.Error()))
+		failLimited(c, "hdr-marshal-error", short(err.Error()))
 		return nil
 	}
 	text = b
 	var back types.BlockHeader
 	if err := back.UnmarshalText(b); err != nil {
-		c.Fail("hdr-decode-of-own-encoding-fails", short(err.Error()))
+		failLimited(c, "hdr-decode-of-own-encoding-fails", short(err.Error()))
 		return
 	}
 	if want, got := dHeader(h), dHeader(&back); want != got {
-		c.Fail("hdr-roundtrip-differs", short("want "+want+" got "+got))
+		failLimited(c, "hdr-roundtrip-differs", short("want "+want+" got "+got))
 		return
 	}
 	if re, err := back.MarshalText(); err != nil || !bytes.Equal(re, b) {
-		c.Fail("hdr-reencoding-differs", short(string(b)))
+		failLimited(c, "hdr-reencoding-differs", short(string(b)))
 	}
 	if h.Hash() != back.Hash() {
-		c.Fail("hdr-hash-changes", short(string(b)))
+		failLimited(c, "hdr-hash-changes", short(string(b)))
 	}
 	js, err := json.Marshal(h)
 	if err != nil {
-		c.Fail("hdr-json-marshal", short(err.Error()))
+		failLimited(c, "hdr-json-marshal", short(err.Error()))
 		return
 	}
 	var jh types.BlockHeader
 	if err := json.Unmarshal(js, &jh); err != nil || dHeader(&jh) != dHeader(h) {
-		c.Fail("hdr-json-roundtrip-differs", short(string(js)))
+		failLimited(c, "hdr-json-roundtrip-differs", short(string(js)))
 	}
 	return
 }
@@ -182,7 +175,7 @@ func oracleHeader(c *Ctx, h *types.BlockHeader) (text []byte) {
 func oracleBlock(c *Ctx, blk *types.Block, flag int) (text []byte) {
 	defer func() {
 		if r := recover(); r != nil {
-			c.Fail("blk-roundtrip-panic", short(fmt.Sprint(r)))
+			failLimited(c, "blk-roundtrip-panic", short(fmt.Sprint(r)))
 		}
 	}()
 	var b []byte
@@ -196,7 +189,7 @@ func oracleBlock(c *Ctx, blk *types.Block, flag int) (text []byte) {
 		b, err = blk.MarshalText()
 	}
 	if err != nil {
-		c.Fail("blk-marshal-error", short(err.Error()))
+		failLimited(c, "blk-marshal-error", short(err.Error()))
 		return nil
 	}
 	text = b
@@ -207,7 +200,7 @@ func oracleBlock(c *Ctx, blk *types.Block, flag int) (text []byte) {
 	}
 	var back types.Block
 	if err := back.UnmarshalText(b); err != nil {
-		c.Fail("blk-decode-of-own-encoding-fails", short(err.Error()))
+		failLimited(c, "blk-decode-of-own-encoding-fails", short(err.Error()))
 		return
 	}
 	// what the chosen serialisation is supposed to keep
@@ -221,34 +214,34 @@ func oracleBlock(c *Ctx, blk *types.Block, flag int) (text []byte) {
 		for _, t := range blk.Transactions {
 			tb, err := t.TxData.MarshalText()
 			if err != nil {
-				c.Fail("tx-marshal-error", short(err.Error()))
+				failLimited(c, "tx-marshal-error", short(err.Error()))
 				return
 			}
 			sizes = append(sizes, uint64(len(tb)/2))
 		}
 	}
 	if w, g := dBlock(flag, want, sizes), dBlock(flag, &back, nil); w != g {
-		c.Fail("blk-roundtrip-differs", short("want "+w+" got "+g))
+		failLimited(c, "blk-roundtrip-differs", short("want "+w+" got "+g))
 		return
 	}
 	if flag != types.SerBlockTransactions && blk.Hash() != back.Hash() {
-		c.Fail("blk-hash-changes", short(string(b)))
+		failLimited(c, "blk-hash-changes", short(string(b)))
 	}
 	for i, t := range back.Transactions {
 		if t.Tx == nil || t.ID != types.NewTx(blk.Transactions[i].TxData).ID {
-			c.Fail("blk-tx-id-changes", short(string(b)))
+			failLimited(c, "blk-tx-id-changes", short(string(b)))
 			break
 		}
 	}
 	if flag == types.SerBlockFull {
 		js, err := json.Marshal(blk)
 		if err != nil {
-			c.Fail("blk-json-marshal", short(err.Error()))
+			failLimited(c, "blk-json-marshal", short(err.Error()))
 			return
 		}
 		var jb types.Block
 		if err := json.Unmarshal(js, &jb); err != nil || dBlock(flag, &jb, nil) != dBlock(flag, &back, nil) {
-			c.Fail("blk-json-roundtrip-differs", short(string(js)))
+			failLimited(c, "blk-json-roundtrip-differs", short(string(js)))
 		}
 	}
 	return
